@@ -1335,10 +1335,9 @@ func TestVerifC08(t *testing.T) {
 	}
 
 	c08EstimatorTable(t, rec)
-	seed := vu.Seed()
 	if vu.Thorough() {
-		n := c08Enumerate(t, rec, 4, []string{"p1", "p2"}, func(i int) bool { return (int64(i)+seed)%2 == 0 })
-		t.Logf("c08: enumerated %d histories of depth 4 (every second one, chosen by the seed)", n)
+		n := c08Enumerate(t, rec, 4, []string{"p1", "p2"}, nil)
+		t.Logf("c08: enumerated %d histories of depth 4", n)
 	} else {
 		n := c08Enumerate(t, rec, 3, []string{"p1", "p2"}, nil)
 		t.Logf("c08: enumerated %d histories of depth 3", n)
@@ -1346,7 +1345,7 @@ func TestVerifC08(t *testing.T) {
 	rng := vu.Rand(8)
 	ncfg, nseg, steps := 30, 300, 45
 	if vu.Thorough() {
-		ncfg, nseg, steps = 150, 6000, 60
+		ncfg, nseg, steps = 200, 9000, 60
 	}
 	cfgs := make([]*c08Cfg, ncfg)
 	for i := range cfgs {
